@@ -28,4 +28,118 @@ theorem files_filtered (acc : Int → Bool) (sh : Shard) (early : Bool) (maxRepo
     obtain ⟨r, d, h1, h2, h3, h4, h5, h6, h7, h8, h9⟩ := this
     exact ⟨r, d, h1, h2, h3, h4, h5, h6, h7, h8, h9⟩
 
+
+/-- **C23, URL maps**: every write to `RepoURLs` / `LineFragments` is the name and template of a repository the
+    context may access, or of one of its sub-repositories. -/
+theorem maps_filtered (acc : Int → Bool) (sh : Shard) (early : Bool) (maxRepo : Nat) :
+    (∀ p ∈ (search acc sh early maxRepo).urls, ∃ r ∈ sh.repos, acc r.tenant = true ∧ p ∈ repoPairs (·.url) (·.url) r) ∧
+    (∀ p ∈ (search acc sh early maxRepo).frags, ∃ r ∈ sh.repos, acc r.tenant = true ∧ p ∈ repoPairs (·.frag) (·.frag) r) := by
+  unfold search
+  split
+  · simp
+  · exact ⟨fun p hp => mapWrites_mem acc sh _ _ p hp, fun p hp => mapWrites_mem acc sh _ _ p hp⟩
+
+/-- the same for the finished Go maps the caller receives (one entry per key, last write wins) -/
+theorem maps_filtered_final (acc : Int → Bool) (sh : Shard) (early : Bool) (maxRepo : Nat) :
+    (∀ p ∈ finalMap (search acc sh early maxRepo).urls, ∃ r ∈ sh.repos, acc r.tenant = true ∧ p ∈ repoPairs (·.url) (·.url) r) ∧
+    (∀ p ∈ finalMap (search acc sh early maxRepo).frags, ∃ r ∈ sh.repos, acc r.tenant = true ∧ p ∈ repoPairs (·.frag) (·.frag) r) :=
+  ⟨fun p hp => (maps_filtered acc sh early maxRepo).1 p (finalMap_mem _ p hp),
+   fun p hp => (maps_filtered acc sh early maxRepo).2 p (finalMap_mem _ p hp)⟩
+
+/-- **C23, repository list**: for every simplification outcome and both field modes, every entry of `Repos` and every
+    `ReposMap` write is a live repository the context may access. -/
+theorem list_filtered (acc : Int → Bool) (sh : Shard) (mode : ListMode) (early : Bool) (field : Field) :
+    ListInv acc sh (list acc sh mode early field) := by
+  have h0 : ListInv acc sh ⟨[], [], 0⟩ := ⟨by simp, by simp⟩
+  unfold list
+  cases mode with
+  | constFalse => exact h0
+  | constTrue => exact listFrom_inv acc sh _ field sh.repos [] _ (by simp) h0
+  | viaSearch => exact listFrom_inv acc sh _ field sh.repos [] _ (by simp) h0
+
+/-- the `RepoSet` by which `typeRepoSearcher.eval` replaces `type:repo child` holds only names of live repositories
+    the context may access -/
+theorem typerepo_set_filtered (acc : Int → Bool) (sh : Shard) (mode : ListMode) (early : Bool) :
+    ∀ n ∈ typeRepoSet acc sh mode early, ∃ r ∈ sh.repos, acc r.tenant = true ∧ r.tomb = false ∧ r.name = n := by
+  intro n hn
+  unfold typeRepoSet at hn
+  rw [List.mem_filterMap] at hn
+  obtain ⟨i, hi, hn⟩ := hn
+  obtain ⟨r, hr, hacc, htomb⟩ := (list_filtered acc sh mode early .repos).1 i hi
+  simp only [hr, Option.map_some, Option.some.injEq] at hn
+  exact ⟨r, List.mem_of_getElem? hr, hacc, htomb, hn⟩
+
+/-! ### `tenant.HasAccess` in strict mode is the statement's rule -/
+
+theorem hasAccess_strict (c : Ctx) (tid : Int) : hasAccess true c tid = mayAccess c tid := by
+  cases c <;> simp [hasAccess, mayAccess]
+
+theorem hasAccess_tenant_iff (t tid : Int) : hasAccess true (.tenant t) tid = true ↔ t = tid := by
+  simp [hasAccess]
+
+theorem hasAccess_none (tid : Int) : hasAccess true .none tid = false := by simp [hasAccess]
+
+theorem hasAccess_system (strict : Bool) (tid : Int) : hasAccess strict .system tid = true := by
+  cases strict <;> simp [hasAccess]
+
+theorem hasAccess_not_strict (c : Ctx) (tid : Int) : hasAccess false c tid = true := by simp [hasAccess]
+
+/-- **C23 for a tenant**: in strict mode every file match, every URL-map entry and every listed repository of a request
+    made for tenant `t` belongs to a repository whose `TenantID` is `t`. -/
+theorem tenant_sees_only_own (t : Int) (sh : Shard) (early : Bool) (maxRepo : Nat) (mode : ListMode) (field : Field) :
+    (∀ f ∈ (search (hasAccess true (.tenant t)) sh early maxRepo).files,
+        ∃ r, sh.repos[f.repoIdx]? = some r ∧ r.tenant = t ∧ f.repository = r.name ∧ f.repositoryID = r.id) ∧
+    (∀ p ∈ finalMap (search (hasAccess true (.tenant t)) sh early maxRepo).urls,
+        ∃ r ∈ sh.repos, r.tenant = t ∧ p ∈ repoPairs (·.url) (·.url) r) ∧
+    (∀ p ∈ finalMap (search (hasAccess true (.tenant t)) sh early maxRepo).frags,
+        ∃ r ∈ sh.repos, r.tenant = t ∧ p ∈ repoPairs (·.frag) (·.frag) r) ∧
+    (∀ i ∈ (list (hasAccess true (.tenant t)) sh mode early field).repos, ∃ r, sh.repos[i]? = some r ∧ r.tenant = t) ∧
+    (∀ w ∈ (list (hasAccess true (.tenant t)) sh mode early field).mapWrites,
+        ∃ r, sh.repos[w.2]? = some r ∧ r.tenant = t ∧ r.id = w.1) := by
+  refine ⟨?_, ?_, ?_, ?_, ?_⟩
+  · intro f hf
+    obtain ⟨r, d, h1, _, _, h4, _, _, h7, h8, _⟩ := files_filtered _ sh early maxRepo f hf
+    exact ⟨r, h1, ((hasAccess_tenant_iff t r.tenant).1 h4).symm, h7, h8⟩
+  · intro p hp
+    obtain ⟨r, hr, hacc, hp⟩ := (maps_filtered_final _ sh early maxRepo).1 p hp
+    exact ⟨r, hr, ((hasAccess_tenant_iff t r.tenant).1 hacc).symm, hp⟩
+  · intro p hp
+    obtain ⟨r, hr, hacc, hp⟩ := (maps_filtered_final _ sh early maxRepo).2 p hp
+    exact ⟨r, hr, ((hasAccess_tenant_iff t r.tenant).1 hacc).symm, hp⟩
+  · intro i hi
+    obtain ⟨r, hr, hacc, _⟩ := (list_filtered _ sh mode early field).1 i hi
+    exact ⟨r, hr, ((hasAccess_tenant_iff t r.tenant).1 hacc).symm⟩
+  · intro w hw
+    obtain ⟨r, hr, hacc, _, hid⟩ := (list_filtered _ sh mode early field).2 w hw
+    exact ⟨r, hr, ((hasAccess_tenant_iff t r.tenant).1 hacc).symm, hid⟩
+
+/-- **C23 without a tenant**: in strict mode a request without tenant gets no file, no map entry and no repository. -/
+theorem no_tenant_sees_nothing (sh : Shard) (early : Bool) (maxRepo : Nat) (mode : ListMode) (field : Field) :
+    (search (hasAccess true .none) sh early maxRepo).files = [] ∧
+    (search (hasAccess true .none) sh early maxRepo).urls = [] ∧
+    (search (hasAccess true .none) sh early maxRepo).frags = [] ∧
+    (list (hasAccess true .none) sh mode early field).repos = [] ∧
+    (list (hasAccess true .none) sh mode early field).mapWrites = [] := by
+  refine ⟨?_, ?_, ?_, ?_, ?_⟩
+  · apply List.eq_nil_iff_forall_not_mem.2
+    intro f hf
+    obtain ⟨r, _, _, _, _, h4, _⟩ := files_filtered _ sh early maxRepo f hf
+    simp [hasAccess_none] at h4
+  · apply List.eq_nil_iff_forall_not_mem.2
+    intro p hp
+    obtain ⟨r, _, hacc, _⟩ := (maps_filtered _ sh early maxRepo).1 p hp
+    simp [hasAccess_none] at hacc
+  · apply List.eq_nil_iff_forall_not_mem.2
+    intro p hp
+    obtain ⟨r, _, hacc, _⟩ := (maps_filtered _ sh early maxRepo).2 p hp
+    simp [hasAccess_none] at hacc
+  · apply List.eq_nil_iff_forall_not_mem.2
+    intro i hi
+    obtain ⟨r, _, hacc, _⟩ := (list_filtered _ sh mode early field).1 i hi
+    simp [hasAccess_none] at hacc
+  · apply List.eq_nil_iff_forall_not_mem.2
+    intro w hw
+    obtain ⟨r, _, hacc, _⟩ := (list_filtered _ sh mode early field).2 w hw
+    simp [hasAccess_none] at hacc
+
 end ZoektModel.C23
